@@ -8,6 +8,7 @@ import Req.Pool.AlpnSeq
 import Req.Pool.ProxyDispatch
 import Req.Pool.AltSvcState
 import Req.Pool.AltSvcClient
+import Req.Pool.WrapChain
 /-! Driver lanes of C12.
 
 * `c12route <force> <h3> <allowHTTP> <dialTLS> <handshake> <protos> <scheme> <reqH1> <alpn>
@@ -365,6 +366,53 @@ def laneAlpnSeq : List String → String
   | _ => "bad-op"
 end alpnseq
 
+section wrap
+open Req.Pool.Wrap
+
+def pWOp (t : String) : Option WOp :=
+  if t == "uf" then some (.set (.force none))
+  else if t == "f1" then some (.set (.force (some .h1)))
+  else if t == "f2" then some (.set (.force (some .h2)))
+  else if t == "f3" then some (.set (.force (some .h3)))
+  else if t == "e3" then some (.set .enableH3)
+  else if t == "px1" then some (.set (.proxy true))
+  else if t == "px0" then some (.set (.proxy false))
+  else if t.startsWith "tr" then (t.drop 2).toString.toNat?.map fun k => .set (.trust k)
+  else if t.startsWith "tw" then (t.drop 2).toString.toNat?.map .twrap
+  else if t.startsWith "cw" then (t.drop 2).toString.toNat?.map .cwrap
+  else if t == "fork" then some .fork
+  else if t.startsWith "sw" then (t.drop 2).toString.toNat?.map .switch
+  else if t == "rq" then some .request
+  else none
+
+/-- `c12wrap <serverALPN> <h3Up> <serverCA> <ops>`: a family of clients (from `C()`) through
+per-client settings (forced version, HTTP/3, trust root, proxy), middleware installations on
+the transport (`tw<id>`; id 0 = a wrapper the library builds itself: header order, pseudo
+header order, impersonation — not traceable) and on the client (`cw<id>`), `Clone` (`fork`),
+switches and requests (`Req.Pool.Wrap.wstep .onCopy`). Every request makes a NEW connection.
+Per request `route=<…>;via=<0|1>;trace=<ids outermost first, . separated|->`, comma separated:
+`Dispatch.routeP` / `viaProxy` under the settings of the member the chains end in. -/
+def laneWrap : List String → String
+  | [srvAlpn, h3Up, ca, ops] =>
+    match pAlpns srvAlpn, pBool h3Up, ca.toNat?, (if ops == "-" then some [] else (ops.splitOn ",").mapM pWOp) with
+    | some sa, some up, some ca, some os =>
+      let (_, out) := os.foldl (fun (acc : Req.Pool.Wrap.Fam × List String) op =>
+        let f := acc.1
+        let f' := wstep .onCopy f op
+        match op with
+        | .request =>
+          let tr := (trace f f.cur).filter (· != 0)
+          let trS := if tr.isEmpty then "-" else ".".intercalate (tr.map toString)
+          let o := match outcome f f.cur sa up ca with
+            | some (r, via) => s!"route={sRoute r};via={if via then 1 else 0}"
+            | none => "route=none;via=0"
+          (f', acc.2 ++ [s!"{o};trace={trS}"])
+        | _ => (f', acc.2)) (Req.Pool.Wrap.Fam.init, [])
+      if out.isEmpty then "-" else ",".intercalate out
+    | _, _, _, _ => "bad-op"
+  | _ => "bad-op"
+end wrap
+
 def pSetting : String → Option Setting
   | "f1" => some .forceH1
   | "f2" => some .forceH2
@@ -456,6 +504,7 @@ def lanes : List (String × (List String → String)) := [
   ("c12offer", laneOffer),
   ("c12alpn", laneAlpn),
   ("c12alpnseq", laneAlpnSeq),
+  ("c12wrap", laneWrap),
   ("c12altsm", laneAltSm)
 ]
 
